@@ -15,8 +15,7 @@ def pySlice (w : List α) (a b : Nat) : List α := (w.drop a).take (b - a)
 (`k % n = 0` returns the record itself).  Python raises `ZeroDivisionError` when `n = 0`; the model is
 total and returns the word, the driver reports the error. -/
 def rotr (w : List α) (k : Nat) : List α :=
-  let n := w.length
-  w.drop (n - k % n) ++ w.take (n - k % n)
+  w.drop (w.length - k % w.length) ++ w.take (w.length - k % w.length)
 
 /-- `record >> k` for any integer `k` (Python `%` is `Int.emod` for a positive modulus). -/
 def rotrI (w : List α) (k : Int) : List α := rotr w (k.emod w.length).toNat
@@ -42,9 +41,8 @@ def ccontains [BEq α] (w q : List α) : Bool :=
 /-- `SeqMatch.group` on the sequence: absolute span `[a, b)` in the doubled text back to the record
 (three branches of the implementation, with the straddling branch in reading order). -/
 def group (w : List α) (a b : Nat) : List α :=
-  let n := w.length
-  if b ≥ a ∧ a ≥ n then pySlice w (a % n) (b % n)
-  else if b ≥ n ∧ n > a then w.drop a ++ w.take (b % n)
+  if b ≥ a ∧ a ≥ w.length then pySlice w (a % w.length) (b % w.length)
+  else if b ≥ w.length ∧ w.length > a then w.drop a ++ w.take (b % w.length)
   else pySlice w a b
 
 end Moclo
